@@ -49,6 +49,8 @@ DEFECTS = {
     "shallow": ("Transparent", "the commit-graph is asked for parents before the shallow boundary is tested"),
     "bmpshallow": ("Transparent", "the bitmap provider ignores a shallow boundary"),
     "octopus": ("Transparent", "the commit-graph writer loses parents of the second and later three-parent merges"),
+    "grafts": ("Transparent", "the commit-graph is asked before graft points and the shallow file"),
+    "idx31": ("IdxTransparent", "a v2 pack index keeps offsets in [2^31, 2^32) inline (real counterpart: the large-offset layout)"),
 }
 
 _G = {}
@@ -402,6 +404,159 @@ def judge(ctx, traces, meta, label):
     return asis
 
 
+# --------------------------------------------------------------------------- fixed layouts next to the enumerated ones
+def large_offset_layout(ctx):
+    """'idx version' with offsets the three formats store differently (Accel!IdxTransparent): one sparse pack in
+    /dev/shm (holes cost nothing) holding a blob at 12 and one just past 2 GiB; the same entries -- plus synthetic
+    ones at 2^31 - 1, 2^31, 3 GiB + 5, 2^32 - 1 and, for v2/v3, 5 GiB -- written as index v1, v2 and v3 by
+    dulwich; every lookup (Pack.get_raw, object_offset, iterentries) must give what was stored, whatever the version."""
+    import hashlib
+    import struct
+    import zlib
+    from dulwich.object_format import DEFAULT_OBJECT_FORMAT
+    from dulwich.objects import Blob
+    from dulwich.pack import Pack, load_pack_index, write_pack_index
+    d = ctx.tmpdir("big")
+    G = 2 ** 30
+
+    def packed(obj):
+        data = obj.as_raw_string()
+        size, hdr = len(data), bytearray()
+        c = (3 << 4) | (size & 0x0F)
+        size >>= 4
+        while size:
+            hdr.append(c | 0x80)
+            c, size = size & 0x7F, size >> 7
+        hdr.append(c)
+        return bytes(hdr) + zlib.compress(data)
+    a, b = Blob.from_string(b"near the start of the pack\n"), Blob.from_string(b"past the two gigabyte mark\n")
+    ra, rb = packed(a), packed(b)
+    off_b = 2 * G + 4096
+    trailer = hashlib.sha1(b"trailer").digest()
+    real = sorted([(a.sha().digest(), 12, zlib.crc32(ra)), (b.sha().digest(), off_b, zlib.crc32(rb))])
+    synth = {1: [12, 70000, 2 * G - 1, 2 * G, 2 * G + 4711, 3 * G + 5, 4 * G - 1]}
+    synth[2] = synth[3] = synth[1] + [5 * G]
+    answers = {}
+    for v in (1, 2, 3):
+        out = {}
+        base = os.path.join(d, f"pack-v{v}")
+        try:
+            with open(base + ".pack", "wb") as f:
+                f.write(b"PACK" + struct.pack(">LL", 2, 2) + ra)
+                f.seek(off_b)
+                f.write(rb + trailer)
+            with open(base + ".idx", "wb") as f:
+                write_pack_index(f, real, trailer, version=v)
+            p = Pack(base, object_format=DEFAULT_OBJECT_FORMAT)
+            try:
+                for name, o in (("near", a), ("far", b)):
+                    try:
+                        t, raw = p.get_raw(o.id)
+                        out["get:" + name] = "ok" if (t, raw) == (3, o.as_raw_string()) else "wrong"
+                    except Exception as e:
+                        out["get:" + name] = "exc:" + type(e).__name__
+            finally:
+                p.close()
+        finally:
+            for ext in (".pack",):
+                if os.path.exists(base + ext):
+                    os.remove(base + ext)
+        ents = sorted((hashlib.sha1(b"o%d" % i).digest(), off, 0x1000 + i) for i, off in enumerate(synth[v]))
+        sp = os.path.join(d, f"s{v}.idx")
+        with open(sp, "wb") as f:
+            write_pack_index(f, ents, trailer, version=v)
+        idx = load_pack_index(sp, DEFAULT_OBJECT_FORMAT)
+        try:
+            for name, off, _ in ents:
+                try:
+                    got = idx.object_offset(name)
+                    out[f"offset:{off}"] = "ok" if got == off else f"wrong:{got}"
+                except Exception as e:
+                    out[f"offset:{off}"] = "exc:" + type(e).__name__
+            try:
+                out["iterentries"] = "ok" if [(n_, o_) for n_, o_, _ in idx.iterentries()] == [(n_, o_) for n_, o_, _ in ents] else "wrong"
+            except Exception as e:
+                out["iterentries"] = "exc:" + type(e).__name__
+        finally:
+            idx.close()
+        answers[v] = out
+        ctx.count()
+    shutil.rmtree(d, ignore_errors=True)
+    for v, out in answers.items():
+        bad = {k: r for k, r in out.items() if r != "ok"}
+        if bad:
+            k = sorted(bad)[0]
+            cls = "mid(2^31..2^32-1)" if any(x.startswith("offset:") and 2 ** 31 <= int(x[7:]) < 2 ** 32 for x in bad) or "get:far" in bad else "other"
+            ctx.violation(f"dulwich/pack.py:write_pack_index_v{v}|idx-version-changes-lookup|offset|idx:v{v};class={cls}",
+                          f"pack index v{v}: {k} -> {bad[k]} (other versions return what was stored): {bad}",
+                          {"kind": "large-offset-layout", "answers": {str(x): y for x, y in answers.items()}})
+        else:
+            ctx.validated()
+    ctx.nontrivial(("large-offset-layout",))
+    ctx.cov["large_offset_layout"] = {str(v): ("all lookups exact" if all(r == "ok" for r in o.values()) else o) for v, o in answers.items()}
+
+
+def shallow_clone_layout(ctx):
+    """A real shallow clone (history beyond the boundary is NOT there), which the enumerated histories do not
+    contain: origin c1 <- c2 <- c3, clone holds c2, c3 with shallow = {c2}; the commit-graph of the full origin
+    (written by dulwich and by git) is copied in.  Parents, walk and merge-base with vs without the file."""
+    from dulwich.graph import find_merge_base
+    from dulwich.repo import Repo
+    for wr in ("dulwich", "git") if git_available() else ("dulwich",):
+        root = ctx.tmpdir("shc")
+        side = X.create(root)
+        w = Repo(X.R(root))
+        tref = {"a": 0, "b": 0}
+        for i, P in ((1, []), (2, [1]), (3, [2])):
+            X.apply(root, side, "Commit", (P, "a", "loose"), "w", w, 0, tref)
+            tref["a"] = i
+        X.apply(root, side, "BuildCg", (wr, "reach"), "x", w, 0, tref)
+        w.close()
+        clone = os.path.join(root, "c.git")
+        shutil.copytree(X.R(root), clone)
+        for k in X.KINDS:
+            h = side.ids[1][k]
+            os.remove(os.path.join(clone, "objects", h[:2], h[2:]))
+        r = Repo(clone)
+        r.update_shallow([side.cid(2)], None)
+        r.close()
+
+        def ask():
+            r = Repo(clone)
+            out = {}
+            try:
+                for i in (2, 3):
+                    for name, fn in (("par", lambda: r.get_parents(side.cid(i))),
+                                     ("walk", lambda: sorted(e.commit.id for e in r.get_walker(include=[side.cid(i)])))):
+                        try:
+                            out[f"{name}[{i}]"] = fn()
+                        except Exception as e:
+                            out[f"{name}[{i}]"] = "exc:" + type(e).__name__
+                try:
+                    out["mb[2,3]"] = find_merge_base(r, [side.cid(3), side.cid(2)])
+                except Exception as e:
+                    out["mb[2,3]"] = "exc:" + type(e).__name__
+            finally:
+                r.close()
+            return out
+        with_ = ask()
+        os.remove(os.path.join(clone, "objects", "info", "commit-graph"))
+        without = ask()
+        ctx.count()
+        bad = sorted(k for k in with_ if with_[k] != without[k])
+        if bad:
+            k = bad[0]
+            q = k.split("[")[0]
+            ctx.violation(f"{RP.SITE.get(q, 'dulwich/repo.py:ParentsProvider.get_parents')}|with!=without|{q}|cg:copied-into-shallow-clone",
+                          f"shallow clone + commit-graph of the full origin ({wr}): {k}: with {with_[k]!r} without {without[k]!r}",
+                          {"kind": "shallow-clone-layout", "writer": wr, "with": {a: repr(b) for a, b in with_.items()},
+                           "without": {a: repr(b) for a, b in without.items()}})
+        else:
+            ctx.validated()
+        ctx.nontrivial(("shallow-clone-layout", wr))
+        shutil.rmtree(root, ignore_errors=True)
+
+
 # --------------------------------------------------------------------------- entry
 def run(ctx):
     # load the code under test once, before any worker is forked: every worker then runs the same snapshot of it
@@ -429,6 +584,11 @@ def run(ctx):
                             every_edge=True, force={"BuildBmp": ("w", 0)})
     # histories with several merges of three parents, commit-graph written by dulwich and by git
     records += replay_graph(ctx, "Accel_octo.cfg", 10 ** 9, "three-parent merges, 5 commits, depth 6", every_edge=True)
+    # graft points and the shallow file (primary data) with commit-graphs written here or copied in
+    records += replay_graph(ctx, "Accel_graft.cfg", 10 ** 9, "grafts + shallow file + commit-graph, 3 commits, depth 5",
+                            every_edge=True)
+    large_offset_layout(ctx)
+    shallow_clone_layout(ctx)
     defect_replays(ctx, futs)
     wtraces, wmeta = walks(ctx, ctx.pick(32, 600), ctx.pick(12, 16), ctx.pick(5, 6))
     t1 = os.times()
